@@ -585,6 +585,10 @@ func (eng *Engine) externTouch(fn *ssa.Function, t map[string]bool) {
 			eng.regSet()
 			t[setHeap] = true
 		}
+	case "math/big.NewFloat", "(*math/big.Float).SetInt", "(*math/big.Float).MantExp":
+		eng.regBig()
+		t["@alloc"] = true
+		t[bigFHeap] = true
 	case "log.Println", "log.Printf":
 		t["ghost:emitted"] = true
 	case "io/ioutil.ReadFile", "os.ReadFile":
